@@ -3,7 +3,11 @@
 //
 // Consumer kind 1 calls WaitWithReleased and then replicates the six lines of ResolveWithReleased (await the
 // promise; on error release the reference) so that the harness knows the *Ref and can attribute the goroutine
-// spawned by the callback to its consumer.
+// spawned by the callback to its consumer.  Kind 3 calls RefCount.Resolve and kind 4 calls RefCount.ResolveWithReleased
+// themselves: the caller only gets the release function (ref.Release), which event 3 later calls; the *Ref of a kind-4
+// consumer is learnt when the wrapper releases it itself (error path: hook site 3 on the consumer's own goroutine) or
+// when the goroutine spawned by its callback reaches site 3 (no other consumer owns that reference; exec admits one
+// kind-4 consumer with an unknown reference at a time, so the attribution is unambiguous).
 package refcountx
 
 import (
@@ -34,6 +38,7 @@ type gdata struct {
 	released func()
 	hasrel   bool
 	errc     uint64
+	empty    bool // the resolver returns the empty value (only together with an error)
 	passed   bool // left the first gate
 	stored   bool // its store section was stepped
 	exiting  bool // resolve is returning (site 4)
@@ -42,6 +47,7 @@ type gdata struct {
 
 type refdata struct {
 	ref     *refcount.Ref[uint64]
+	rel     func() // consumers of kind 3 / 4: the release function Resolve / ResolveWithReleased returned
 	kind    uint64
 	last    [3]uint64
 	removed bool // its removeRef section ran
@@ -144,6 +150,11 @@ func newSys(w *hist.W, cfg []uint64) *sys {
 		case kAsync:
 			return site == 2
 		case kRel, kCons, kFire:
+			if a.Kind == kCons && site == 3 {
+				if d := a.Data.(*cdata); d.kind == 4 && d.ref == nil {
+					d.ref, _ = obj.(*refcount.Ref[uint64])
+				}
+			}
 			return site == 3
 		}
 		return false
@@ -172,6 +183,15 @@ func newSys(w *hist.W, cfg []uint64) *sys {
 					return a
 				}
 			}
+			// the goroutine spawned by the callback of a real ResolveWithReleased call: its reference is the only unknown one
+			for _, ca := range s.cons {
+				d := ca.Data.(*cdata)
+				if d.kind == 4 && d.ref == nil && d.fire == nil && ref != nil {
+					a := s.c.NewActor(kFire)
+					d.fire, d.ref = a, ref
+					return a
+				}
+			}
 		}
 		return nil
 	}
@@ -194,20 +214,25 @@ func (s *sys) resolver(ctx context.Context, released func()) (uint64, func(), er
 		}
 	}
 	s.c.ParkUser(a, 1)
+	val := s.valOf(g)
+	if d.empty {
+		// what a realistic resolver does on failure: return zero, rel, err
+		val = 0
+	}
 	var rel func()
 	if d.hasrel {
 		errc := d.errc
 		rel = func() {
 			stale := uint64(0)
 			for _, r := range s.refs {
-				if r.kind != 0 && r.kind != 9 && s.inSet(r) && r.last == [3]uint64{2, s.valOf(g), errc} {
+				if r.kind != 0 && r.kind != 9 && s.inSet(r) && r.last == [3]uint64{2, val, errc} {
 					stale++
 				}
 			}
 			s.rellog = append(s.rellog, [3]uint64{g, s.target.GetValue(), stale})
 		}
 	}
-	return s.valOf(g), rel, errOf(d.errc)
+	return val, rel, errOf(d.errc)
 }
 
 // valOf is the value the resolver call on goroutine g returns.
@@ -222,12 +247,13 @@ func (s *sys) valOf(g uint64) uint64 {
 // values it is read off the value; otherwise it is the goroutine whose store section ran last (stores happen in
 // goroutine order, and a stored result is only current while no later goroutine exists that stored).
 func (s *sys) genOf(val uint64) int {
-	if !s.constVal {
-		if val >= 1 && int(val-1) < len(s.gors) {
+	if !s.constVal && val != 0 {
+		if int(val-1) < len(s.gors) {
 			return int(val - 1)
 		}
 		return -1
 	}
+	// constant value, or the empty value that came with an error
 	for i := len(s.gors) - 1; i >= 0; i-- {
 		if s.gors[i].Data.(*gdata).stored {
 			return i
@@ -389,12 +415,15 @@ func (s *sys) exec(ev []uint64) (obs []uint64, ok bool) {
 		}
 	case 3:
 		i := int(ev[1])
-		if i >= len(s.refs) || s.refs[i].ref == nil {
+		if i >= len(s.refs) || (s.refs[i].ref == nil && s.refs[i].rel == nil) {
 			return nil, false
 		}
-		ref := s.refs[i].ref
+		release := s.refs[i].rel
+		if ref := s.refs[i].ref; ref != nil {
+			release = ref.Release
+		}
 		a := s.c.NewActor(kRel)
-		s.c.Go(a, func(a *ctl.Actor) { ref.Release() })
+		s.c.Go(a, func(a *ctl.Actor) { release() })
 		synctest.Wait()
 		if a.Parked() {
 			s.relacts = append(s.relacts, a)
@@ -441,8 +470,12 @@ func (s *sys) exec(ev []uint64) (obs []uint64, ok bool) {
 		if g >= len(s.gors) || s.gors[g].InUser() == 0 || ev[3] == 1 {
 			return nil, false
 		}
+		empty := len(ev) > 4 && ev[4] != 0
+		if empty && (ev[4] != 1 || ev[3] == 0) {
+			return nil, false
+		}
 		d := s.gors[g].Data.(*gdata)
-		d.hasrel, d.errc = ev[2] == 1, ev[3]
+		d.hasrel, d.errc, d.empty = ev[2] == 1, ev[3], empty
 		s.c.StepUser(s.gors[g])
 	case 9:
 		g := int(ev[1])
@@ -457,8 +490,16 @@ func (s *sys) exec(ev []uint64) (obs []uint64, ok bool) {
 		d.stored = true
 		s.c.Step(a)
 	case 10:
-		if ev[1] > 2 {
+		if ev[1] > 4 {
 			return nil, false
+		}
+		if ev[1] == 4 {
+			// one ResolveWithReleased call with a still unknown reference at a time (attribution of its callback's goroutine)
+			for _, ca := range s.cons {
+				if d := ca.Data.(*cdata); d.kind == 4 && d.ref == nil && d.fire == nil {
+					return nil, false
+				}
+			}
 		}
 		ctx, cancel := context.WithCancel(context.Background())
 		a := s.c.NewActor(kCons)
@@ -482,6 +523,26 @@ func (s *sys) exec(ev []uint64) (obs []uint64, ok bool) {
 					}
 				})
 				d.v, d.e, d.held = codeOf(err), 0, false
+				d.ret = true
+				return
+			}
+			if d.kind == 3 {
+				val, rel, err := s.rc.Resolve(ctx)
+				d.v, d.e, d.held = val, codeOf(err), rel != nil
+				rd.rel = rel
+				if err != nil {
+					d.v = 0
+				}
+				d.ret = true
+				return
+			}
+			if d.kind == 4 {
+				val, rel, err := s.rc.ResolveWithReleased(ctx, func() { d.fired++ })
+				d.v, d.e, d.held = val, codeOf(err), rel != nil
+				rd.rel = rel
+				if err != nil {
+					d.v = 0
+				}
 				d.ret = true
 				return
 			}
@@ -582,6 +643,18 @@ func (s *sys) gen(r *rand.Rand, maxG int) []uint64 {
 	var gate0, inres, store, entered, relparked, relrefs, firep, conslive, incb, accwait []int
 	na := len(s.parkedAsyncs())
 	room := len(s.gors) < maxG
+	// a resolver return: an error one time in oneInErr; a failing resolver returns the empty value three times out of four
+	// (`return zero, rel, err`), otherwise its usual value; with or without a release function either way
+	ret8 := func(g int, oneInErr int) []uint64 {
+		e, z := uint64(0), uint64(0)
+		if r.IntN(oneInErr) == 0 {
+			e = 2 + uint64(r.IntN(2))
+			if r.IntN(4) != 0 {
+				z = 1
+			}
+		}
+		return []uint64{8, uint64(g), uint64(b2u(r.IntN(4) > 0)), e, z}
+	}
 	for i, a := range s.gors {
 		d := a.Data.(*gdata)
 		switch {
@@ -603,7 +676,7 @@ func (s *sys) gen(r *rand.Rand, maxG int) []uint64 {
 		}
 	}
 	for i, rd := range s.refs {
-		if rd.ref != nil {
+		if rd.ref != nil || rd.rel != nil {
 			relrefs = append(relrefs, i)
 		}
 	}
@@ -631,11 +704,7 @@ func (s *sys) gen(r *rand.Rand, maxG int) []uint64 {
 			case x < 40 && len(gate0) > 0:
 				return []uint64{7, uint64(pick(r, gate0)), 0}
 			case x < 70 && len(inres) > 0:
-				e := uint64(0)
-				if r.IntN(8) == 0 {
-					e = 2 + uint64(r.IntN(2))
-				}
-				return []uint64{8, uint64(pick(r, inres)), uint64(b2u(r.IntN(4) > 0)), e}
+				return ret8(pick(r, inres), 8)
 			case x < 100 && len(store) > 0:
 				return []uint64{9, uint64(pick(r, store))}
 			}
@@ -657,11 +726,7 @@ func (s *sys) gen(r *rand.Rand, maxG int) []uint64 {
 			case x < 58 && len(gate0) > 0:
 				return []uint64{7, uint64(pick(r, gate0)), 0}
 			case x < 78 && len(inres) > 0:
-				e := uint64(0)
-				if r.IntN(6) == 0 {
-					e = 2 + uint64(r.IntN(2))
-				}
-				return []uint64{8, uint64(pick(r, inres)), uint64(b2u(r.IntN(4) > 0)), e}
+				return ret8(pick(r, inres), 6)
 			case x < 96 && len(store) > 0:
 				return []uint64{9, uint64(pick(r, store))}
 			case x < 100 && len(conslive) > 0:
@@ -691,22 +756,27 @@ func (s *sys) gen(r *rand.Rand, maxG int) []uint64 {
 		case x < 66 && len(gate0) > 0:
 			return []uint64{7, uint64(pick(r, gate0)), 0}
 		case x < 78 && len(inres) > 0:
-			e := uint64(0)
-			if r.IntN(4) == 0 {
-				e = 2 + uint64(r.IntN(2))
-			}
 			// leave slow resolvers in place some of the time
 			if r.IntN(4) == 0 {
 				continue
 			}
-			return []uint64{8, uint64(pick(r, inres)), uint64(b2u(r.IntN(4) > 0)), e}
+			return ret8(pick(r, inres), 4)
 		case x < 88 && len(store) > 0:
 			return []uint64{9, uint64(pick(r, store))}
 		case x < 92 && len(s.cons) < 3 && len(s.refs) < 8 && room:
 			if s.wantAcc && r.IntN(2) == 0 {
 				return []uint64{10, 2}
 			}
-			return []uint64{10, uint64(r.IntN(2))}
+			// Wait, WaitWithReleased (+ replica), Resolve, ResolveWithReleased
+			k := []uint64{0, 1, 3, 4}[r.IntN(4)]
+			if k == 4 {
+				for _, ca := range s.cons {
+					if d := ca.Data.(*cdata); d.kind == 4 && d.ref == nil && d.fire == nil {
+						k = 1
+					}
+				}
+			}
+			return []uint64{10, k}
 		case x < 93 && len(incb) > 0:
 			return []uint64{13, uint64(pick(r, incb)), cbres()}
 		case x == 93 && s.wantRootCancel && len(s.gors) > 0:
